@@ -4,8 +4,9 @@
  * parse_number, add_label, find_label (all static in mark.c), driven exactly like the first
  * loop of mark_create: ovni_mark_emu zeroed, scan_thread() for every thread in system order,
  * stop at the first failure.  (The rest of mark_create - channel and track creation - runs on
- * the real code in C17-C, wiring.c.)  uthash: list model.  strtol/strtoll/snprintf:
- * stubs/libc_model.h.  parson getters: ghost documents of stubs/vjson.h.
+ * the real code in C17-C, wiring.c.)  uthash: list model.  snprintf: stubs/libc_model.h;
+ * strtol/strtoll: harness/C17/c17_strtol.h (division-free variant of the shared model, compared
+ * natively with glibc on every run).  parson getters: ghost documents of stubs/vjson.h.
  *
  * Input space: 2 threads; each thread's metadata may or may not have `ovni.mark`; inside, two
  * member slots, each present or not, with
@@ -15,6 +16,14 @@
  *   chan_type  absent / a number / "single" / "stack" / "Stack"
  *   labels     absent / a string / an object with two slots, each present or not:
  *                key "1" "2" | "x" (distinct), value a number / "A" / "B"
+ *
+ * Configurations (-D, from checks/C17.py; symbolic presence flags make every JSON pointer an
+ * if-then-else over nodes, which is affordable for one slot per thread only):
+ *   NSLOT / NLAB            type slots per thread / label slots per type (1 or 2)
+ *   PIN_SLOTS + P_MARK, P_SLOT     presence of ovni.mark / of the slots pinned to bit masks
+ *   PIN_LABS + P_LABELS, P_LAB     presence of `labels` / of each label pinned to bit masks
+ *   WELLTYPED               only the JSON shapes the runtime writes (merge-only experiments)
+ *   W_*                     which witness points the configuration can reach
  *
  * Oracle (independent; doc/user/runtime/mark.md "Create a mark type", "Define labels": the same
  * type may be defined by several threads as long as flags and title agree, labels of all
